@@ -120,12 +120,17 @@ func NewBuilderExtra(keys *Keys, base Shape, extra []patch.Patch) (*Builder, err
 
 // NewBuilderOrigin additionally embeds an anchor origin in the create's suffix data and in every recover.
 func NewBuilderOrigin(keys *Keys, base Shape, extra []patch.Patch, origin interface{}) (*Builder, error) {
+	return NewBuilderTyped(keys, base, extra, origin, "")
+}
+
+// NewBuilderTyped additionally sets the optional suffix data property "type".
+func NewBuilderTyped(keys *Keys, base Shape, extra []patch.Patch, origin interface{}, typ string) (*Builder, error) {
 	delta := &model.DeltaModel{UpdateCommitment: keys.C(base.Nuc), Patches: append(DeltaPatches(base.Dl, base.P), extra...)}
 	dh, err := hashing.CalculateModelMultihash(delta, keys.Hash)
 	if err != nil {
 		return nil, err
 	}
-	sd := &model.SuffixDataModel{DeltaHash: dh, RecoveryCommitment: keys.C(base.Nrc), AnchorOrigin: origin}
+	sd := &model.SuffixDataModel{DeltaHash: dh, RecoveryCommitment: keys.C(base.Nrc), AnchorOrigin: origin, Type: typ}
 	sfx, err := hashing.CalculateModelMultihash(sd, keys.Hash)
 	if err != nil {
 		return nil, err
